@@ -234,7 +234,7 @@ class isolation:
             _output._DEFAULT_LOGGER,
             _errors._error_extraction.registry,
             _action.time,
-            _action.uuid4,
+            getattr(_action, "uuid4", None),
             _message.Message._time,
             warnings.filters[:],
         )
